@@ -1560,6 +1560,10 @@ fn c08_corpus(sink: &mut Sink) {
     q6.order = vec![(Ex::Prop("a".into(), "u".into()), true), (Ex::Prop("r".into(), "eu".into()), true)];
     q6.limit = Some(1);
     c08_case(sink, &w, &q6, "c08w-k6", &["corpus".into()]);
+    // K6 (remaining part): DISTINCT applied after LIMIT in GQL
+    let mut q6d = base.clone();
+    q6d.limit = Some(2);
+    c08_case(sink, &w, &q6d, "c08w-k6d", &["corpus".into()]);
     let mut q7 = base.clone();
     q7.start = np("a", &["A", "B"]);
     q7.hops.clear();
